@@ -306,7 +306,7 @@ func compile(patterns []string, mode Mode) (*regexp.Regexp, error) {
 								break Pattern
 							}
 							b.WriteString(pat[:w])
-						case '!', '-', '[', ']', '^':
+						case '!', '-', '[', '\\', ']', '^':
 							b.WriteByte('\\')
 						}
 						b.WriteRune(r)
